@@ -22,7 +22,8 @@ inductive Ty where
   | map (t : Ty)                                   -- map[string]T
   | strct (fs : List (String × String × String × Ty))   -- (Go name, config tag, validate tag, type)
   | config                                         -- ucfg.Config (use ptr config for *Config)
-  | unsupported                                    -- chan, func, complex, map[int]T …
+  | unsupported                                    -- chan, func, complex …
+  | badmap                                         -- map[K]T with a key type other than string
   deriving Repr, Inhabited
 
 inductive GoVal where
@@ -75,6 +76,7 @@ def zeroOf : Ty → GoVal
   | .strct fs => .strct (zeroFields fs)
   | .config => .cfg (some Val.empty)
   | .unsupported => .unsup
+  | .badmap => .unsup
 def zeroFields : List (String × String × String × Ty) → List GoVal
   | [] => []
   | (_, _, _, t) :: r => zeroOf t :: zeroFields r
@@ -400,7 +402,10 @@ def mergeValue (std : Stdlib) : Nat → FOpts → Ty → GoVal → Val → Outco
        | none => raise .expectedObject
        | some _ => .ok old)
     | .config, .cfg _ => raise .pointerRequired
-    | .unsupported, _ => raise .typeMismatch
+    | .badmap, _ =>
+      (match toCfg? v with
+       | none => raise .expectedObject
+       | some _ => raise .typeMismatch)              -- raiseKeyInvalidTypeUnpack
     | ty, _ => reifyPrimitiveT std fo ty v
 
 /-- reify.go reifyValue: a fresh value of type `ty` -/
@@ -428,7 +433,10 @@ def reifyValue (std : Stdlib) : Nat → FOpts → Ty → Val → Outcome GoVal
       (match toCfg? v with
        | none => raise .expectedObject
        | some sub => .ok (.cfg (some sub)))
-    | .unsupported => raise .typeMismatch
+    | .badmap =>
+      (match toCfg? v with
+       | none => raise .expectedObject
+       | some _ => raise .typeMismatch)              -- raiseKeyInvalidTypeUnpack
     | ty => reifyPrimitiveT std fo ty v
 
 /-- reify.go reifyPrimitive (+ the array / regexp cases that end up in it) -/
@@ -521,6 +529,15 @@ def reifyStructT (std : Stdlib) : Nat → Opts → List (String × String × Str
              | some e => raiseValidation e
              | none => .ok r
            | .slice _ | .array _ _ => mergeValue std n fo t x cfg
+           | .config =>
+             -- reifyInto / tryTConfig: the whole config is merged into the inlined Config value
+             (match x with
+              | .cfg c => .ok (.cfg (some (mergeCfg o' (c.getD Val.empty) cfg)))
+              | _ => raise .typeMismatch)
+           | .ptr .config =>
+             (match x with
+              | .ptr (some (.cfg c)) => .ok (.ptr (some (.cfg (some (mergeCfg o' (c.getD Val.empty) cfg)))))
+              | _ => raise .typeMismatch)
            | _ => raise .typeMismatch)
         else getField' std n fo t x cfg fi.name)
       let rest ← reifyStructT std n o fr xr cfg
@@ -620,9 +637,27 @@ end
 
 def unpackFuel : Nat := 400
 
-/-- (*Config).Unpack(&target) for a target of type `ty` currently holding `old` -/
+/-- the type behind all pointers (util.go chaseTypePointers) -/
+def Ty.base : Ty → Ty
+  | .ptr t => t.base
+  | t => t
+
+/-- (*Config).Unpack(&target) for a target of type `ty` currently holding `old`
+    (reifyInto: pointers are chased up to the first nil one) -/
 def unpack (std : Stdlib) (o : Opts) (ty : Ty) (old : GoVal) (cfg : Val) : Outcome GoVal :=
   match ty with
+  | .ptr t =>
+    (match old with
+     | .ptr (some v) => do let r ← unpack std o t v cfg; .ok (.ptr (some r))
+     | .ptr none =>
+       (match t.base with
+        | .strct _ | .map _ | .config => do
+          -- a nil pointer to a struct / map / Config: what it points to is allocated, then filled
+          let r ← unpack std o t (zeroOf t) cfg
+          .ok (.ptr (some r))
+        | .slice _ | .array _ _ => mergeValue std unpackFuel { opts := o } (.ptr t) (.ptr none) cfg
+        | _ => raise .typeMismatch)
+     | _ => raise .typeMismatch)
   | .map t => (match old with
     | .map m => reifyMapT std unpackFuel o [] t m cfg
     | _ => raise .typeMismatch)
@@ -631,7 +666,7 @@ def unpack (std : Stdlib) (o : Opts) (ty : Ty) (old : GoVal) (cfg : Val) : Outco
     | _ => raise .typeMismatch)
   | .slice _ | .array _ _ => mergeValue std unpackFuel { opts := o } ty old cfg
   | .config => (match old with
-    | .cfg (some c) => .ok (.cfg (some (mergeCfg o c cfg)))
+    | .cfg c => .ok (.cfg (some (mergeCfg o (c.getD Val.empty) cfg)))
     | _ => raise .typeMismatch)
   | _ => raise .typeMismatch          -- raiseInvalidTopLevelType
 
